@@ -22,17 +22,24 @@ class C01:
 
     def __call__(self, s, op, k, ians):
         t = s.tree
+        # with explicit labels (duplicates, arbitrary numbers): the reported ids are exactly the labels inserted, with multiplicity
+        flat_any = sorted(i for c in _clusters(t) for i in c)
+        if flat_any != sorted(s.labels):
+            return {"signature": "C01:reported-ids-are-not-the-labels-inserted",
+                    "what": f"reported {flat_any[:20]}... vs inserted {sorted(s.labels)[:20]}...", "detail": {"n": t.num_fitted_fps}}
+        if t.num_fitted_fps != len(s.labels):
+            return {"signature": "C01:count-differs-from-the-number-of-inserted-rows", "what": f"{t.num_fitted_fps} vs {len(s.labels)}"}
         if not s.labels_contiguous:
             return None
         n = t.num_fitted_fps
         flat = sorted(i for c in _clusters(t) for i in c)
-        if flat != list(range(n)):
+        if flat != list(range(s.base, s.base + n)):
             return {"signature": "C01:clusters-do-not-partition-the-fitted-labels",
                     "what": f"flattened clusters {flat[:20]}... vs range({n})", "detail": {"n": n, "flat": flat[:200]}}
         flat2 = sorted(i for c in _clusters(t, sort=False) for i in c)
         if flat2 != flat:
             return {"signature": "C01:unsorted-report-differs", "what": "sort=False report has different labels"}
-        if t.is_init and n > 0:
+        if t.is_init and n > 0 and s.base == 0:
             try:
                 a = t.get_assignments(check_valid=True)
                 if len(a) != n or (a == 0).any():
@@ -69,9 +76,9 @@ class C02:
             if len(cm["centroids"]) != len(cm["mol_ids"]) or len(bfs) != len(cm["mol_ids"]):
                 return {"signature": "C02:centroid-list-misaligned", "what": "centroid and member lists differ in length"}
             for j, (bf, ids) in enumerate(zip(bfs, cm["mol_ids"])):
-                if any(i >= len(s.data) for i in ids):
+                if any(not (0 <= i - s.base < len(s.data)) for i in ids):
                     return None  # C01's business
-                rows = X[ids]
+                rows = X[[i - s.base for i in ids]]
                 n = len(ids)
                 if int(bf.n_samples) != n:
                     return {"signature": "C02:count-differs-from-member-list", "what": f"n_samples={bf.n_samples} len(ids)={n}"}
@@ -95,28 +102,42 @@ RAD = {"radius", "tolerance-radius"}
 
 class C03:
     """every cluster with >= 2 members meets the bound of a (criterion, threshold) pair that
-    was in force at some insertion of the history since the last reset"""
+    was in force at some insertion of the history since the last reset.  The pairs in force are
+    the ones the USER put in force (constructor arguments, set_merge / setter arguments,
+    recluster's extra_threshold), tracked from the operations — not read back from the object."""
 
     def __init__(self):
         self.configs: set = set()
+        self.req = None   # (criterion name, threshold) requested so far
 
     def before(self, s, op, k):
-        t = s.tree
-        self.thr0 = float(t.threshold)
-        self.crit0 = t.merge_criterion
+        if self.req is None:
+            c = s.cfg["crit"]
+            self.req = ((c[1] if isinstance(c, (tuple, list)) else c) or "diameter", float(s.cfg["thr"]))
 
     def __call__(self, s, op, k, ians):
         t = s.tree
         kind = op["op"]
+        crit, thr = self.req
         if kind in ("fit", "refine"):
-            self.configs.add((self.crit0, self.thr0))
+            self.configs.add((crit, thr))
         elif kind == "recluster":
-            thr = self.thr0
             for _ in range(op["it"]):
                 thr = thr + op["extra"]
-                self.configs.add((self.crit0, thr))
-                if thr == float(t.threshold):
-                    pass
+                self.configs.add((crit, thr))
+            if ians == "ok":
+                # the advanced threshold stays in force (early stopping may end before all iterations: the tree tells how far)
+                self.req = (crit, float(t.threshold))
+                self.configs.add(self.req)
+        elif kind == "setmerge" and ians == "ok":
+            c = op["crit"]
+            if c is not None:
+                crit = c[1] if isinstance(c, (tuple, list)) else c
+            if op["thr"] is not None:
+                thr = float(op["thr"])
+            self.req = (crit, thr)
+        elif kind == "setthr" and ians == "ok":
+            self.req = (crit, float(op["thr"]))
         elif kind == "reset":
             self.configs = set()
         if not t.is_init or not s.labels_contiguous or not s.data:
@@ -124,16 +145,16 @@ class C03:
         X = np.asarray(s.data, dtype=np.uint64).reshape(len(s.data), s.F)
         for ids in t.get_cluster_mol_ids():
             n = len(ids)
-            if n < 2 or any(i >= len(s.data) for i in ids):
+            if n < 2 or any(not (0 <= i - s.base < len(s.data)) for i in ids):
                 continue
-            ls = X[ids].sum(axis=0)
+            ls = X[[i - s.base for i in ids]].sum(axis=0)
             isim = float(jt_isim_from_sum(ls, n))
             rc = float(jt_isim_radius_compl_from_sum(ls, n))
             ok = False
-            for crit, thr in self.configs:
-                if crit in DIAM and isim >= thr:
+            for c2, th2 in self.configs:
+                if c2 in DIAM and isim >= th2:
                     ok = True
-                elif crit in RAD and rc >= thr:
+                elif c2 in RAD and rc >= th2:
                     ok = True
             if not ok:
                 return {"signature": "C03:cluster-below-every-threshold-in-force",
@@ -222,6 +243,8 @@ class C09:
     def __call__(self, s, op, k, ians):
         if op["op"] not in ("recluster", "refine") or ians != "ok":
             return None
+        if len(set(s.labels)) != len(s.labels):
+            return None   # duplicate explicit labels: "the cluster of id i" is not defined
         t = s.tree
         new = _clusters(t)
         where = {}
@@ -231,6 +254,10 @@ class C09:
         keep = self.prev
         if op["op"] == "refine":
             keep = self.prev[max(op["n"], 0):] if op["n"] > 0 else self.prev
+        for c in self.prev:
+            if any(i not in where for i in c):
+                return {"signature": f"C09:{op['op']}-dropped-members-of-a-cluster",
+                        "what": f"members {[i for i in c if i not in where][:10]} are in no cluster after {op['op']}"}
         for c in keep:
             if len({where.get(i, -1) for i in c}) > 1:
                 return {"signature": f"C09:{op['op']}-separated-a-cluster-that-was-not-to-be-split",
